@@ -227,6 +227,17 @@ def run(ctx):
 
     ctx.section(_sec_meta)
 
+    def _sec_stale():
+        # --------------------------------------------------------------- stale
+        # the property translators rename keys in place; a later guard that still reads the old key is no guard
+        from ..keystate import stale_rule
+
+        fs = [f for f in index.nontest_funcs() if f.mod.name.startswith("cdd.json_schema.")]
+        n = stale_rule(ctx, "C06.stale", fs, "the conversion of the value (e.g. a string default being re-typed)")
+        ctx.floor("dicts with constant keys in the JSON-schema emitters/parsers", n, 4)
+
+    ctx.section(_sec_stale)
+
 
 
 def _pattern(ctx, index, p2j=None, j2p=None):
